@@ -186,7 +186,8 @@ def run(tier, seed, replay=None):
             ("match3", lambda r: gen.gen_match_program(r, npasses=3, size="small")),
             ("features", lambda r: gen.add_feature_tests(r, gen.gen_match_program(r, size="small") if r.random() < 0.5 else gen.gen_expr_program(r))),
             ("positioning", lambda r: gen.gen_pos_program(r)),
-            ("attachment", lambda r: gen.gen_attach_program(r))]
+            ("attachment", lambda r: gen.gen_attach_program(r)),
+            ("qcaret", lambda r: gen.gen_match_program(r, npasses=r.choice([1, 2]), size="small", carets=True))]
     per = 8 if tier == "quick" else 80
     ntext = 40 if tier == "quick" else 120
     for fi, (fname, mk) in enumerate(fams):
@@ -208,7 +209,7 @@ def run(tier, seed, replay=None):
             inv = {v: k for k, v in prog.cmap.items()}
             texts = [t for t in texts[:ntext] if all(g in inv for g in t)]
             fvals = [((i * 7) % 3, (i * 5) % 2) for i in range(len(texts))] if fname == "features" else None
-            lines = ["font %s/out.ttf" % r["dir"], "ir %s/p.ir.json" % r["dir"]] + (["expand"] if fname == "optional" else []) + (["c01"] if fname in ("positioning", "attachment", "optional") else []) + \
+            lines = ["font %s/out.ttf" % r["dir"], "ir %s/p.ir.json" % r["dir"]] + (["expand"] if fname == "optional" else []) + (["c01"] if fname in ("positioning", "attachment", "optional", "qcaret") else []) + \
                 [("shapef %d,%d " % fvals[i] if fvals else "shape ") + " ".join(map(str, t)) for i, t in enumerate(texts)]
             outs = common.run_grcv(lines)
             k = 2
@@ -217,11 +218,11 @@ def run(tier, seed, replay=None):
                 while outs[k] != "done":      # output of `expand`
                     k += 1
                 k += 1
-            if fname in ("optional", "positioning", "attachment"):
+            if fname in ("optional", "positioning", "attachment", "qcaret"):
                 k0 = k
                 while outs[k] != "done":
                     k += 1
-                if fname in ("optional", "positioning", "attachment"):
+                if fname in ("optional", "positioning", "attachment", "qcaret"):
                     problems += [l for l in outs[k0:k] if not l.startswith("ok ")][:3]
                     for l in outs[k0:k]:
                         if l.startswith("ok "):
